@@ -163,8 +163,17 @@ func VH_C09() {
 		case 2:
 			q.Set("key-marker", freeValue("km"))
 		case 3:
-			q.Set("key-marker", "k")
-			q.Set("version-id-marker", freeValue("vim"))
+			// a key with several versions, one with a single version, one under a
+			// delete marker, and a key that does not exist
+			q.Set("key-marker", []string{"k", "p/q", "d", "zz"}[vsym.Choice("vkm", 4)])
+			switch vsym.Choice("vimkind", 3) {
+			case 0:
+				q.Set("version-id-marker", freeValue("vim"))
+			case 1:
+				q.Set("version-id-marker", oldVer)
+			default:
+				q.Set("version-id-marker", "null")
+			}
 		case 4:
 			q.Set("version-id-marker", freeValue("vim"))
 		}
